@@ -784,9 +784,6 @@ func (h *c22History) checkCommitted(o *c22op, want []rowKey, rows []outRow, befo
 	r.Count("mutations.committed."+o.Kind, 1)
 	if after == before {
 		r.Count("observations.committed-without-visible-state-change."+o.Kind, 1)
-		if os.Getenv("VERIF_DEBUG") != "" {
-			fmt.Fprintf(os.Stderr, "NOCHANGE %+v\n%s\n", *o, before)
-		}
 	}
 	missing, extra := diffRows(want, rows)
 	for _, m := range missing {
